@@ -2071,7 +2071,8 @@ func (interp *Interpreter) cfg(root *node, sc *scope, importPath, pkgName string
 			default:
 				err = matchSelectorMethod(sc, n)
 			}
-			if err == nil && n.findex != -1 && n.typ.cat != genericT {
+			if err == nil && n.findex != -1 && n.typ.cat != genericT && (n.sym == nil || !n.sym.global) {
+				// A global variable of a source package keeps its location in the global frame.
 				n.findex = sc.add(n.typ)
 			}
 
